@@ -114,7 +114,14 @@ fn hour_lines(ctx: &Ctx, tag: &str, count: usize, salt: u64) -> usize {
       let tw2 = g(lh.as_ref().and_then(|s| catch_iso(|| s.get_twelve_star().get_index() as i64)));
       let mr = g(lh.as_ref().and_then(|s| catch_iso(|| s.get_minor_ren().get_index() as i64)));
       let (lm, ld) = lh.as_ref().map(|l| (l.get_month() as i64, l.get_day() as i64)).unwrap_or((-9, -9));
-      sink.put(Ev::new("h").b("s", first).i("j", j).i("hh", hh as i64).i("dp", dp).i("ldp", ldp).i("hp", hp).i("hi", hi).a("ns", &[ns1, ns2]).a("tw", &[tw1, tw2]).i("mr", mr).i("lm", lm).i("ld", ld).a("sol", &sol).done());
+      // the lunar day the (already queried) hour hands out must answer as a freshly built lunar day of that date
+      let hday = lh.as_ref().and_then(|l| catch_iso(|| l.get_lunar_day()));
+      let fday = catch_iso(|| d.get_lunar_day());
+      let two = |x: &Option<tyme4rs::tyme::lunar::LunarDay>| -> Vec<i64> {
+        vec![g(x.as_ref().and_then(|v| catch_iso(|| v.get_duty().get_index() as i64))), g(x.as_ref().and_then(|v| catch_iso(|| v.get_twelve_star().get_index() as i64)))]
+      };
+      let (hd, fd) = (two(&hday), two(&fday));
+      sink.put(Ev::new("h").b("s", first).a("hd", &hd).a("fd", &fd).i("j", j).i("hh", hh as i64).i("dp", dp).i("ldp", ldp).i("hp", hp).i("hi", hi).a("ns", &[ns1, ns2]).a("tw", &[tw1, tw2]).i("mr", mr).i("lm", lm).i("ld", ld).a("sol", &sol).done());
       first = false;
     }
   }
